@@ -38,3 +38,61 @@ func VerifC18_Langs() {
 		zzverif.Lang("RuleObject="+string(RuleObject), true)
 	}
 }
+
+// ---- the clauses of the property on every ASCII string up to a length bound, through the real
+// validators whatever their implementation (regular expressions or string functions).  The unbounded
+// check (VerifC18_Langs + /verif/atnre/c18.py) needs validators that are pure regular-expression tests;
+// this one does not, and it is what still decides when a validator is rewritten without regexp.
+
+func vCount(s string, c byte) int {
+	n := 0
+	for i := 0; i < len(s); i++ {
+		n += zzverif.IteInt(s[i] == c, 1, 0)
+	}
+	return n
+}
+
+func vHasAny(s string, set string) bool {
+	r := false
+	for i := 0; i < len(s); i++ {
+		for j := 0; j < len(set); j++ {
+			r = zzverif.Or(r, s[i] == set[j])
+		}
+	}
+	return r
+}
+
+func vBoolInt(b bool) int { return zzverif.IteInt(b, 1, 0) }
+
+// VerifC18_Bounded: one arbitrary string over the characters the rules distinguish.
+func VerifC18_Bounded() {
+	s := zzverif.Str("s", 0, zzverif.Param("N", 5), "a:#*@ \t")
+	obj, id, rel, uset := ValidateObject(s), ValidateObjectID(s), ValidateRelation(s), ValidateUserSet(s)
+	uobj, wild, user, cond, typ := ValidateUserObject(s), ValidateUserWildcard(s), ValidateUser(s), ValidateRelationshipCondition(s), ValidateType(s)
+	colons, hashes := vCount(s, ':'), vCount(s, '#')
+	ws := vHasAny(s, " \t")
+	// objects: exactly one ':' with an accepted type in front and an accepted id behind
+	zzverif.Assert(zzverif.Implies(zzverif.Or(obj, uobj), colons == 1), "object-has-exactly-one-colon")
+	for p := 0; p < len(s); p++ {
+		here := zzverif.And(s[p] == ':', vCount(s[:p], ':') == 0)
+		zzverif.Assert(zzverif.Implies(zzverif.And(here, zzverif.Or(obj, uobj)), zzverif.And(ValidateType(s[:p]), ValidateObjectID(s[p+1:]))), "object-splits-into-type-and-id")
+		// usersets: object, '#', relation
+		for q := p + 1; q < len(s); q++ {
+			hash := zzverif.And(s[q] == '#', vCount(s[:q], '#') == 0)
+			zzverif.Assert(zzverif.Implies(zzverif.And(zzverif.And(here, hash), uset),
+				zzverif.And(zzverif.And(ValidateType(s[:p]), ValidateObjectID(s[p+1:q])), ValidateRelation(s[q+1:]))), "userset-splits-into-type-id-relation")
+		}
+		// typed wildcard: type ":*"
+		zzverif.Assert(zzverif.Implies(zzverif.And(here, wild), zzverif.And(ValidateType(s[:p]), p+2 == len(s))), "wildcard-is-type-colon-star")
+	}
+	zzverif.Assert(zzverif.Implies(uset, zzverif.And(colons == 1, hashes == 1)), "userset-has-one-colon-and-one-hash")
+	zzverif.Assert(zzverif.Implies(wild, colons == 1), "wildcard-has-exactly-one-colon")
+	// a user is exactly one of userset, object, typed wildcard
+	zzverif.Assert(user == (vBoolInt(uset)+vBoolInt(uobj)+vBoolInt(wild) == 1), "user-is-exactly-one-of-userset-object-wildcard")
+	zzverif.Assert(zzverif.Implies(user, vBoolInt(uset)+vBoolInt(obj)+vBoolInt(wild) == 1), "user-is-exactly-one-of-userset-object-wildcard")
+	// no white space; no separators in types and relations
+	zzverif.Assert(zzverif.Implies(zzverif.Or(zzverif.Or(typ, rel), zzverif.Or(id, cond)), zzverif.Not(ws)), "no-whitespace-in-type-relation-id-condition")
+	zzverif.Assert(zzverif.Implies(zzverif.Or(typ, rel), zzverif.Not(vHasAny(s, ":#@*"))), "no-separator-in-type-or-relation")
+	zzverif.Assert(zzverif.Implies(zzverif.Or(typ, rel), len(s) > 0), "type-and-relation-not-empty")
+	zzverif.Reach("checked")
+}
